@@ -46,3 +46,8 @@ def lemma_tiling(b, j):
     while b[i + 1] <= j:
         i += 1
     return i
+
+
+def lemma_ideal_mono(a, b, c, r):
+    # requires 0 <= a <= b, c >= 0 ; ensures a*c + min(a, r) <= b*c + min(b, r), and with a < b the gap is at least c
+    pass
